@@ -367,3 +367,77 @@ Proof.
   apply (renum_WF _ _ _ HR); [|now apply WF_norm].
   unfold idx_ok. now rewrite idx_ok_from_norm.
 Qed.
+
+(* ---------- from the written text ---------- *)
+Lemma load_lines_tokens (C : circuit) (n : nat) :
+  file_in_range C n -> load_c2d_lines (write_c2d C n) = load_c2d (tokens_of C n).
+Proof. intros H. unfold load_c2d_lines. now rewrite lex_lines_write. Qed.
+
+Theorem file_is_circuit (C : circuit) (n : nat) :
+  file_in_range C n ->
+  lex_lines (write_c2d C n) = Some (tokens_of C n) /\
+  read_c2d (tokens_of C n) = Some (map norm C, n).
+Proof. intros H. split; [now apply lex_lines_write|apply read_c2d_tokens]. Qed.
+
+Definition nonempty_gates (C : circuit) : bool :=
+  forallb (fun nd => match nd with And [] | Or [] => false | _ => true end) C.
+
+Lemma norm_id (C : circuit) : nonempty_gates C = true -> map norm C = C.
+Proof.
+  intros H. rewrite <- (map_id C) at 2. apply map_ext_in. intros nd Hnd.
+  unfold nonempty_gates in H. rewrite forallb_forall in H. specialize (H nd Hnd).
+  destruct nd as [l|[|c cs]|[|c cs]| |]; try reflexivity; discriminate.
+Qed.
+
+Lemma root_count_norm C : root_count (map norm C) = root_count C.
+Proof. unfold root_count. now rewrite counts_norm. Qed.
+
+Theorem file_wf (C : circuit) (n : nat) :
+  WF C n ->
+  WF (map norm C) n /\
+  (forall s, eval_root s (map norm C) = eval_root s C) /\
+  root_count (map norm C) = root_count C /\
+  (nonempty_gates C = true -> map norm C = C).
+Proof.
+  intros H. split; [now apply WF_norm|]. split; [intros s; apply eval_root_norm|].
+  split; [apply root_count_norm|apply norm_id].
+Qed.
+
+Theorem reload_lines_sem (C C' : circuit) (n n' : nat) :
+  file_in_range C n -> (N.of_nat n < two32)%N ->
+  load_c2d_lines (write_c2d C n) = Some (C', n') ->
+  n' = n /\ forall s, eval_root s C' = eval_root s C.
+Proof.
+  intros Hr Hn H. rewrite (load_lines_tokens _ _ Hr) in H. split.
+  - exact (load_tokens_n _ _ _ _ Hn H).
+  - exact (reload_sem _ _ _ _ H).
+Qed.
+
+Theorem reload_lines_wf (C C' : circuit) (n n' : nat) :
+  file_in_range C n -> WF C n ->
+  load_c2d_lines (write_c2d C n) = Some (C', n') -> WF C' n.
+Proof. intros Hr HW H. rewrite (load_lines_tokens _ _ Hr) in H. exact (reload_wf _ _ _ _ HW H). Qed.
+
+Theorem reload_lines_count (C C' : circuit) (n n' : nat) :
+  file_in_range C n -> WF C n ->
+  load_c2d_lines (write_c2d C n) = Some (C', n') -> root_count C' = root_count C.
+Proof.
+  intros Hr HW H. apply (same_function_same_count C' C n).
+  - exact (reload_lines_wf _ _ _ _ Hr HW H).
+  - exact HW.
+  - rewrite (load_lines_tokens _ _ Hr) in H. exact (reload_sem _ _ _ _ H).
+Qed.
+
+(* the truth table, hence every specification-level answer (MC, MCA, model sets under
+   assumptions: count, SAT, core/dead, enumeration set, atomic sets are functions of it) *)
+Theorem reload_lines_models (C C' : circuit) (n n' : nat) :
+  file_in_range C n ->
+  load_c2d_lines (write_c2d C n) = Some (C', n') ->
+  Models C' n = Models C n /\
+  (forall A, ModelsA C' n A = ModelsA C n A) /\ (forall A, MCA C' n A = MCA C n A).
+Proof.
+  intros Hr H. rewrite (load_lines_tokens _ _ Hr) in H.
+  assert (HM : Models C' n = Models C n).
+  { unfold Models. apply filter_ext. intros m. exact (reload_sem _ _ _ _ H _). }
+  split; [exact HM|]. split; intros A; unfold MCA, ModelsA; now rewrite HM.
+Qed.
